@@ -9,7 +9,7 @@
 From Coq Require Import List NArith ZArith Bool.
 From Abasic Require Import Model.Bytes Model.Num Model.Token Model.Data Model.Lexer Gen.Tables
      Model.State Model.Eval Model.Interp Proofs.Monad Proofs.Frames Proofs.StoreProofs Proofs.Safety
-     Proofs.FlagsSim Proofs.TurnProofs Proofs.Termination.
+     Proofs.FlagsSim Proofs.TurnProofs Proofs.Termination Proofs.WorkBound.
 Import ListNotations.
 Local Open Scope nat_scope.
 
@@ -68,9 +68,55 @@ Theorem C09_start_returns : forall fuel line s,
   wf s -> start_bound s line < fuel -> fst (start_evaluating fuel line s) <> OutOfFuel.
 Proof. exact start_returns. Qed.
 
-(* "Work bounded by the length of the line": validated (the model's
-   cursor-read counter must EQUAL the implementation's hook counter on every
-   call, and the bound is checked on both), not proved. *)
+(* "For programs that call no user-defined function, the work done in one call
+   is bounded by the length of the line being executed" (Proofs/WorkBound.v).
+   Work = token-cursor reads, the hook counter [reads] (the model's counter
+   EQUALS the implementation's on every call of every correspondence case).
+   [room s] = tokens left on the line the cursor is on, [loc_idx (loc s)] =
+   tokens before it.  With an empty function table, from EVERY well-formed
+   state, one turn costs at most 12 reads per token left, plus one read per
+   token before the cursor (INPUT rewinding over its own statement), plus 4.
+   A potential argument over every evaluator: a read that consumes a token is
+   paid by that token; the reads that consume nothing are counted along every
+   path and covered by the tokens the path did consume, up to the constant. *)
+Theorem C09_work_bound_turn : forall fuel s, wf s -> functions s = [] ->
+  reads (snd (run_next_statement fuel s)) <= reads s + 12 * room s + loc_idx (loc s) + 4.
+Proof. exact work_bound_turn. Qed.
+
+Theorem C09_work_bound_continue : forall fuel s, wf s -> functions s = [] -> state s = Running ->
+  reads (snd (continue_evaluating fuel s)) <= reads s + 12 * room s + loc_idx (loc s) + 4.
+Proof. exact work_bound_continue. Qed.
+
+(* the calls that start evaluation: a typed line of statements (the line
+   executed is the typed one), RUN (which empties the function table itself;
+   [lim]: the longest token list in the interpreter), CONT (the line the
+   breakpoint is on) *)
+Theorem C09_work_bound_immediate : forall fuel line ts s, wf s -> functions s = [] -> state s = Idle ->
+  command_of line = None -> parse_line_number line = None -> tokenize line 0 = TokOk ts ->
+  reads (snd (start_evaluating fuel line s)) <= reads s + 12 * length ts + 4.
+Proof. exact work_bound_immediate. Qed.
+
+Theorem C09_work_bound_run : forall fuel line s, wf s -> state s = Idle -> command_of line = Some CRun ->
+  reads (snd (start_evaluating fuel line s)) <= reads s + 12 * lim s + 4.
+Proof. exact work_bound_run. Qed.
+
+Theorem C09_work_bound_cont : forall fuel line s n i ts, wf s -> functions s = [] -> state s = Idle ->
+  command_of line = Some CCont -> breakpoint s = Some (n, i) -> toks_get n (st_toks s) = Some ts ->
+  reads (snd (start_evaluating fuel line s)) <= reads s + 12 * (length ts - i) + i + 4.
+Proof. exact work_bound_cont. Qed.
+
+(* expressions alone: 11 reads per token consumed, 3 more when they fail *)
+Theorem C09_expression_cost : forall fuel n, Jc (evaluate_expression fuel n) (ob (-1) EF).
+Proof. exact Jc_evaluate_expression. Qed.
+
+(* non-vacuity: a 27-token line; its first statement (22 tokens of nested
+   parentheses and operators) costs 96 reads from a fresh interpreter, under
+   the bound 12 * 27 + 4 *)
+Example C09_work_example :
+  let line := bs "PRINT ((1+2)*(3-4))/((5)) ; A$ ; : X = 1" in
+  exists ts, tokenize line 0 = TokOk ts /\ length ts = 27 /\
+    reads (snd (start_evaluating 100 line init_interp)) = 96.
+Proof. eexists. split; [vm_compute; reflexivity|]. split; vm_compute; reflexivity. Qed.
 
 (* non-vacuity: `10 PRINT "A":PRINT "B"` under TRACE — three calls, one trace
    record each (the colon is its own turn), Print records 1, 0, 1; a never-ending
@@ -94,3 +140,9 @@ Print Assumptions C09_turn.
 Print Assumptions C09_expressions_silent.
 Print Assumptions C09_continue_returns.
 Print Assumptions C09_start_returns.
+Print Assumptions C09_work_bound_turn.
+Print Assumptions C09_work_bound_continue.
+Print Assumptions C09_work_bound_immediate.
+Print Assumptions C09_work_bound_run.
+Print Assumptions C09_work_bound_cont.
+Print Assumptions C09_expression_cost.
